@@ -17,136 +17,15 @@ FILES = ["spil/sid/sid.py", "spil/sid/core/*.py", "spil/sid/read/*.py", "spil/si
          "spil_hamlet_conf/spil_data_conf.py", "spil_hamlet_conf/hamlet_plugins/next_get.py"]
 
 
-def seg(src_lines, node):
-    return ast.get_source_segment("".join(src_lines), node)
-
-
-class Edit:
-    def __init__(self, op, node, new_text, what):
-        self.op, self.node, self.new, self.what = op, node, new_text, what
-
-
-def in_main_guard(tree):
-    spans = []
-    for st in tree.body:
-        if isinstance(st, ast.If) and isinstance(st.test, ast.Compare) and isinstance(st.test.left, ast.Name) and st.test.left.id == "__name__":
-            spans.append((st.lineno, st.end_lineno))
-    return spans
-
-
-def gen_edits(path, src):
-    tree = ast.parse(src)
-    skip = in_main_guard(tree)
-    edits = []
-    parents = {}
-    for n in ast.walk(tree):
-        for c in ast.iter_child_nodes(n):
-            parents[id(c)] = n
-
-    def inside_func(n):
-        p = n
-        while p is not None:
-            if isinstance(p, (ast.FunctionDef,)):
-                return True
-            p = parents.get(id(p))
-        return False
-
-    def text(n):
-        return ast.get_source_segment(src, n)
-
-    for n in ast.walk(tree):
-        ln = getattr(n, "lineno", None)
-        if ln is None or any(a <= ln <= b for a, b in skip):
-            continue
-        if isinstance(n, ast.Expr) and isinstance(n.value, ast.Constant):
-            continue
-        # docstrings / doctest text are Constant nodes: never touched (we only edit code nodes below)
-        if isinstance(n, ast.Call):
-            f = n.func
-            if isinstance(f, ast.Attribute) and f.attr == "copy" and not n.args:
-                edits.append(Edit("COPY-DROP", n, text(f.value), f"{text(n)} -> {text(f.value)}"))
-            if isinstance(f, ast.Name) and f.id in ("dict", "list", "OrderedDict") and len(n.args) == 1 and not n.keywords \
-                    and isinstance(n.args[0], (ast.Name, ast.Attribute)):
-                edits.append(Edit("COPY-DROP", n, text(n.args[0]), f"{text(n)} -> {text(n.args[0])}"))
-            if isinstance(f, ast.Name) and f.id == "sorted" and n.args:
-                edits.append(Edit("SORT-DROP", n, f"list({text(n.args[0])})", f"{text(n)[:60]} -> list(..)"))
-            for kw in n.keywords:
-                if kw.arg and inside_func(n) and isinstance(kw.value, (ast.Name, ast.Attribute)) and len(n.keywords) + len(n.args) > 1:
-                    # drop one forwarded keyword argument
-                    parts = [text(a) for a in n.args] + [f"{k.arg}={text(k.value)}" if k.arg else f"**{text(k.value)}" for k in n.keywords if k is not kw]
-                    edits.append(Edit("KW-DROP", n, f"{text(f)}({', '.join(parts)})", f"{text(n)[:70]} without {kw.arg}="))
-        if isinstance(n, ast.If) and inside_func(n):
-            body_kinds = [type(s).__name__ for s in n.body]
-            exits = all(k in ("Return", "Continue", "Raise", "Break", "Expr") for k in body_kinds) and any(
-                k in ("Return", "Continue", "Raise", "Break") for k in body_kinds)
-            par = parents.get(id(n))
-            is_elif = isinstance(par, ast.If) and par.orelse == [n]
-            if exits and not n.orelse and not is_elif:
-                edits.append(Edit("GUARD-DROP", n, "pass", f"drop `if {text(n.test)[:60]}: {body_kinds[-1].lower()}`"))
-            edits.append(Edit("COND-NEG", n.test, f"(not ({text(n.test)}))", f"negate `{text(n.test)[:60]}`"))
-        if isinstance(n, ast.Try) and n.handlers and not n.finalbody and not n.orelse and inside_func(n):
-            # keep the body only (dedented by replacing `try:` block with `if True:`)
-            body_src = "\n".join(src.splitlines()[n.body[0].lineno - 1:n.body[-1].end_lineno])
-            indent = " " * n.col_offset
-            edits.append(Edit("TRY-DROP", n, "if True:\n" + body_src, f"drop try/except around line {n.lineno}"))
-        if isinstance(n, ast.Compare) and len(n.ops) == 1 and inside_func(n):
-            op = n.ops[0]
-            swap = {ast.Eq: "!=", ast.NotEq: "==", ast.In: "not in", ast.NotIn: "in", ast.Lt: "<=", ast.LtE: "<", ast.Gt: ">=", ast.GtE: ">",
-                    ast.Is: "is not", ast.IsNot: "is"}
-            if type(op) in swap and not isinstance(parents.get(id(n)), ast.If):
-                edits.append(Edit("CMP-SWAP", n, f"{text(n.left)} {swap[type(op)]} {text(n.comparators[0])}", f"`{text(n)[:60]}` -> {swap[type(op)]}"))
-        if isinstance(n, ast.BoolOp) and inside_func(n) and len(n.values) == 2:
-            other = " or " if isinstance(n.op, ast.And) else " and "
-            edits.append(Edit("BOOL-SWAP", n, "(" + other.join(text(v) for v in n.values) + ")", f"`{text(n)[:60]}` -> {other.strip()}"))
-        if isinstance(n, ast.Subscript) and inside_func(n) and isinstance(n.ctx, ast.Load) and not (
-                isinstance(n.value, ast.Name) and n.value.id in ("Literal", "Optional", "List", "Dict", "Tuple", "Iterator", "Mapping", "Set", "Union",
-                                                                 "Callable", "Iterable", "Type")):
-            s = n.slice
-            val = None
-            if isinstance(s, ast.Constant) and isinstance(s.value, int):
-                val = s.value
-            elif isinstance(s, ast.UnaryOp) and isinstance(s.op, ast.USub) and isinstance(s.operand, ast.Constant) and isinstance(s.operand.value, int):
-                val = -s.operand.value
-            if val is not None:
-                new = {0: -1, -1: 0, 1: 0, -2: -1}.get(val, val + 1)
-                edits.append(Edit("IDX", n, f"{text(n.value)}[{new}]", f"`{text(n)[:50]}` index {val} -> {new}"))
-            if isinstance(s, ast.Slice) and s.upper is not None and s.lower is None and s.step is None:
-                edits.append(Edit("IDX", n, f"{text(n.value)}[:({text(s.upper)}) + 1]", f"`{text(n)[:50]}` upper bound + 1"))
-        if isinstance(n, ast.Return) and isinstance(n.value, ast.BoolOp) and isinstance(n.value.op, ast.Or) and inside_func(n):
-            edits.append(Edit("OR-DROP", n.value, text(n.value.values[0]), f"`{text(n)[:60]}` without the fallback"))
-        if isinstance(n, ast.Constant) and isinstance(n.value, str) and n.value in ("/", "?", ":", ",", "~", ">", "*", "**", "/*", "/**", "__") and inside_func(n):
-            par = parents.get(id(n))
-            if isinstance(par, ast.Expr) or isinstance(par, ast.JoinedStr):
-                continue
-            repl = {"/": "|", "?": "&", ":": ";", ",": ";", "~": "!", ">": "<", "*": "?", "**": "*", "/*": "/", "/**": "/*", "__": "_"}[n.value]
-            edits.append(Edit("STR", n, repr(repl), f"string {n.value!r} -> {repl!r} at line {n.lineno}"))
-        if isinstance(n, ast.Expr) and isinstance(n.value, ast.Call) and isinstance(n.value.func, ast.Attribute) \
-                and n.value.func.attr in ("append", "add", "update", "remove", "extend", "pop", "insert", "setdefault") and inside_func(n):
-            edits.append(Edit("STMT-DROP", n, "pass", f"drop `{text(n)[:60]}`"))
-    return edits
-
-
-def apply_edit(src, e):
-    lines = src.splitlines(keepends=True)
-    n = e.node
-    start = sum(len(l) for l in lines[:n.lineno - 1]) + len(lines[n.lineno - 1].encode()[:n.col_offset].decode())
-    end = sum(len(l) for l in lines[:n.end_lineno - 1]) + len(lines[n.end_lineno - 1].encode()[:n.end_col_offset].decode())
-    new = e.new
-    if "\n" in new:
-        # re-indent a multi-line replacement to the node's column
-        ind = " " * n.col_offset
-        first, *rest = new.split("\n")
-        base = min((len(r) - len(r.lstrip()) for r in rest if r.strip()), default=0)
-        rest = [ind + "    " + r[base:] if r.strip() else r for r in rest]
-        new = "\n".join([first] + rest)
-    return src[:start] + new + src[end:]
+sys.path.insert(0, V)
+from sa.mutgen import Edit, gen_edits, apply_edit  # noqa: E402
 
 
 def work(args):
     k, rel, e, wdir = args
     path = os.path.join(wdir, rel)
     orig = open(os.path.join(REPO, rel)).read()
-    rec = {"id": k, "file": rel, "line": e.node.lineno, "op": e.op, "what": e.what}
+    rec = {"id": k, "file": rel, "line": e.node.lineno, "op": e.op, "what": e.what, "func": getattr(e, "func", "")}
     try:
         mutated = apply_edit(orig, e)
         try:
